@@ -24,7 +24,7 @@ SHARED = {
     "C17": [("C17.R8", "more", "entry_point_replaced_only_on_unnamed_or_fresh", "the entry point is replaced only on unnamed or fresh function objects")],
     "C19": [("C19.R10", "more", "no_shared_mutable_defaults_written", "mutable default arguments are never written"), ("C19.R11", "c19", "r11_resolution_completes_whatever_is_cached", "a resolution installs its whole chain whatever is already cached"), ("C19.R9", "c07", "r3", "the continuation branch resolves the bare key first and consults what it stored")],
     "C05": [("C05.R5", "c18", "r4_flag_never_unset", "the built flag is not lowered while the generated entry point stays live")],
-    "C20": [("C20.R9", "c20", "r9_dependent_dispatcher_tests_values_only", "the dependent dispatcher does not re-test plain classes"), ("C20.R7", "c07", "r3", "the continuation branch reads the cached bare key"), ("C20.R8", "c07", "r5_next_keys_like_call_next", "next() keys like the entry point")],
+    "C20": [("C20.R10", "c19", "r4_whole_value_stores", "the lookup path never discards or rewrites cached entries"), ("C20.R9", "c20", "r9_dependent_dispatcher_tests_values_only", "the dependent dispatcher does not re-test plain classes"), ("C20.R7", "c07", "r3", "the continuation branch reads the cached bare key"), ("C20.R8", "c07", "r5_next_keys_like_call_next", "next() keys like the entry point")],
 }
 
 
